@@ -25,4 +25,4 @@ For each change i = 1..3 write, under {out}/m<i>/ :
   - demo.py     : a small standalone program (run as `cd <repo root> && /venv/bin/python {out}/m<i>/demo.py`, it must `import tangermeme` from the current directory - insert os.getcwd() at sys.path[0]) that exits 0 on the unmodified code and exits non-zero (assertion failure) with the change applied; it must test the PROPERTY (a behavioural statement), not the implementation detail.
   - notes.txt   : 2-5 lines: what was changed, what it needs in order to manifest, which tests you ran.
 Never use `git stash` (the stash is shared with other worktrees of this repository); to flip between clean and patched use `git apply` / `git apply -R` / `git checkout -- .` only. After producing each patch, restore the worktree (`git -C {wt} checkout -- .`) before making the next one, and verify: demo passes on clean tree, fails with patch; relevant tests pass with patch.
-Python to use: /venv/bin/python (has torch, numpy, numba, pandas, pytest). There is no network. Finish by replying with a short summary listing the three changes (one line each).""")
+Python to use: /venv/bin/python (has torch, numpy, numba, pandas, pytest). The machine is shared and busy: prefix every python / pytest command with `OMP_NUM_THREADS=2` (without it torch oversubscribes the cores and a test file can take 20 minutes instead of 20 seconds). There is no network. Finish by replying with a short summary listing the three changes (one line each).""")
